@@ -39,6 +39,7 @@ struct Tr {
     int a, b;
 };
 static StateSet SS;
+static std::vector<int> TOP; // constructor of the first recipe of each state (-1 leaf)
 static std::string tr_recipe(const Tr &t)
 {
     if (t.op < NBIN)
@@ -148,6 +149,108 @@ static std::vector<Cand> cands(const std::vector<Value> &v)
     for (auto &x : v)
         c.push_back({x.v, x.scale, x.nodes, x.has_float});
     return c;
+}
+
+// Is some node of the tree evaluated at (or within rounding distance of) a pole, a logarithmic or a square-root
+// branch point?  There RefEval returns rounding noise instead of a value (sin(pi) = 1e-34, atan(i(1+1e-34)) = 39 i),
+// so such a point cannot be judged.  Only consulted when a comparison fails.
+static bool near_singularity(const Basic &e, const Env &env)
+{
+    const rq eps = 1e-15Q;
+    auto val = [&](const Basic &a, cq &v) {
+        Value r = refeval(a, env);
+        v = r.v;
+        return r.ok;
+    };
+    auto tiny = [&](cq z) { return absq(z) < eps; };
+    auto pow_sing = [&](const Basic &b, const Basic &x) {
+        cq vb;
+        if (!val(b, vb))
+            return true;
+        if (!tiny(vb))
+            return false;
+        if (is_a<Integer>(x))
+            return down_cast<const Integer &>(x).is_negative();
+        return true; // tiny base with a non-integer / symbolic exponent
+    };
+    if (is_a<Pow>(e)) {
+        const Pow &p = down_cast<const Pow &>(e);
+        if (pow_sing(*p.get_base(), *p.get_exp()))
+            return true;
+    } else if (is_a<Mul>(e)) {
+        for (auto &p : down_cast<const Mul &>(e).get_dict()) {
+            if (pow_sing(*p.first, *p.second))
+                return true;
+            if (near_singularity(*p.first, env) || near_singularity(*p.second, env))
+                return true;
+        }
+        return false;
+    } else if (is_a<Add>(e)) {
+        for (auto &p : down_cast<const Add &>(e).get_dict())
+            if (near_singularity(*p.first, env))
+                return true;
+        return false;
+    } else if (e.get_args().size() == 1) {
+        cq a;
+        if (!val(*e.get_args()[0], a))
+            return true;
+        const cq one = mkc(1, 0), ii = mkc(0, 1);
+        switch (e.get_type_code()) {
+            case SYMENGINE_TAN:
+            case SYMENGINE_SEC:
+                if (tiny(ccosq(a)))
+                    return true;
+                break;
+            case SYMENGINE_COT:
+            case SYMENGINE_CSC:
+                if (tiny(csinq(a)))
+                    return true;
+                break;
+            case SYMENGINE_TANH:
+            case SYMENGINE_SECH:
+                if (tiny(ccoshq(a)))
+                    return true;
+                break;
+            case SYMENGINE_COTH:
+            case SYMENGINE_CSCH:
+                if (tiny(csinhq(a)))
+                    return true;
+                break;
+            case SYMENGINE_LOG:
+                if (tiny(a))
+                    return true;
+                break;
+            case SYMENGINE_ATAN:
+                if (tiny(a - ii) || tiny(a + ii))
+                    return true;
+                break;
+            case SYMENGINE_ACOT:
+                if (tiny(a) || tiny(one / a - ii) || tiny(one / a + ii))
+                    return true;
+                break;
+            case SYMENGINE_ASIN:
+            case SYMENGINE_ACOS:
+            case SYMENGINE_ATANH:
+                if (tiny(a - one) || tiny(a + one))
+                    return true;
+                break;
+            case SYMENGINE_ASEC:
+            case SYMENGINE_ACSC:
+            case SYMENGINE_ACOTH:
+                if (tiny(a) || tiny(one / a - one) || tiny(one / a + one))
+                    return true;
+                break;
+            default:
+                break;
+        }
+    }
+    cq v;
+    if (val(e, v) && absq(v) > 1e15Q)
+        return true; // numerically a pole
+    for (auto &a : e.get_args())
+        if (near_singularity(*a, env))
+            return true;
+    return false;
 }
 
 static bool neg_exponent(const Basic &x, std::string &how)
@@ -287,7 +390,8 @@ static Judge judge(int tf, const RCP<const Basic> &e)
             if (!re_real || !im_real) {
                 // only a gross imaginary component counts
                 const Value &bad = !re_real ? vr[0] : vr2[0];
-                if (fabsq(im(bad.v)) > 1e-9Q * fmaxq(absq(bad.v), 1e-300Q)) {
+                if (fabsq(im(bad.v)) > 1e-9Q * fmaxq(absq(bad.v), 1e-300Q) && !near_singularity(*e, pts[g])
+                    && !near_singularity(*r, pts[g]) && !near_singularity(*r2, pts[g])) {
                     J.status = J_VIOLATION;
                     J.kind = !re_real ? "real-part-not-real" : "imaginary-part-not-real";
                     J.detail = std::string(!re_real ? "the real part " : "the imaginary part ") + "evaluates to " + cstr(bad.v) + " at point "
@@ -303,6 +407,9 @@ static Judge judge(int tf, const RCP<const Basic> &e)
         } else
             got = cands(vr);
         int c = compare(want, got, why);
+        if (c == 0
+            && (near_singularity(*e, pts[g]) || near_singularity(*r, pts[g]) || (!r2.is_null() && near_singularity(*r2, pts[g]))))
+            c = 2; // a node sits on a pole / branch point: rounding noise, not a value
         if (c == 1)
             J.points++;
         else if (c == 2)
@@ -341,7 +448,7 @@ static std::vector<std::string> counter_names()
                                   "cases_not_judged(no decidable point)",
                                   "points_compared_equal",
                                   "points_skipped(pole/nonfinite/near-cut/unsupported)",
-                                  "points_ill_conditioned(not judged)",
+                                  "points_ill_conditioned_or_at_a_singularity(not judged)",
                                   "cases_result_differs_from_input(rewrite fired)",
                                   "cases_input_nonfinite_skipped"};
     for (int t = 0; t < NTF; t++) {
@@ -411,13 +518,17 @@ int main(int argc, char **argv)
     std::vector<std::pair<std::string, RCP<const Basic>>> leaves = {
         {"x", x},           {"y", y},          {"2", integer(2)}, {"-1", integer(-1)},
         {"1/2", R(1, 2)},   {"-2/3", R(-2, 3)}, {"I", I},          {"1/2+I/3", Complex::from_two_nums(*R(1, 2), *R(1, 3))}};
-    for (auto &l : leaves)
-        SS.add(l.second, l.first, 0);
+    for (auto &l : leaves) {
+        bool fresh;
+        SS.add(l.second, l.first, 0, &fresh);
+        if (fresh)
+            TOP.push_back(-1);
+    }
     Run &Rn = run();
     std::vector<std::string> cn = counter_names();
     std::string bound;
 
-    auto layer_transitions = [&](int L, bool restricted, std::vector<Tr> &T) {
+    auto layer_transitions = [&](int L, std::vector<Tr> &T) {
         int n = (int)SS.size();
         for (int a = 0; a < n; a++) {
             int da = SS.S[a].depth;
@@ -428,8 +539,6 @@ int main(int argc, char **argv)
                 int db = SS.S[b].depth;
                 if (da + db + 1 != L)
                     continue;
-                if (restricted && da != db)
-                    continue; // restricted layer: only operands of equal depth (S1 x S1 for L = 3)
                 for (int op = 0; op < NBIN; op++) {
                     if ((op == B_ADD || op == B_MUL) && b < a)
                         continue; // commutative constructors: unordered pairs
@@ -444,7 +553,7 @@ int main(int argc, char **argv)
     for (int L = 0; L <= NFULL && !past_deadline(); L++) {
         std::vector<Tr> T;
         if (L > 0) {
-            layer_transitions(L, false, T);
+            layer_transitions(L, T);
             CaseSet ca;
             ca.name = "construct:L" + std::to_string(L);
             ca.n = (long long)T.size();
@@ -470,7 +579,10 @@ int main(int argc, char **argv)
                         Rn.counters["transitions_to_nonfinite_state(not used)"]++;
                         continue;
                     }
-                    SS.add(e, tr_recipe(T[i]), L);
+                    bool fresh;
+                    SS.add(e, tr_recipe(T[i]), L, &fresh);
+                    if (fresh)
+                        TOP.push_back(T[i].op);
                 } catch (SymEngineException &) {
                 }
             }
@@ -493,34 +605,54 @@ int main(int argc, char **argv)
             bound = "every distinct state with <= " + std::to_string(L) + " operations (" + std::to_string(SS.size()) + " states) x "
                     + std::to_string(NTF) + " transformations";
     }
-    if (thorough && !past_deadline()) {
-        // depth 3, not stored: every unary function of a depth-2 state and every binary operation of two depth-1 states
-        // (binary operations of a depth-2 state with a leaf are outside the completed bound)
-        std::vector<Tr> T;
-        layer_transitions(3, true, T);
-        CaseSet cl;
-        cl.name = "rewrite:T3";
-        cl.n = (long long)T.size() * NTF;
-        cl.counter_names = cn;
-        cl.desc = [&](long long i) { return std::string(TFN[i % NTF]) + "(" + tr_recipe(T[i / NTF]) + ")"; };
-        cl.crash_sig = [&](long long i, const std::string &oc) {
-            const Tr &t = T[i / NTF];
-            return std::string(TFN[i % NTF]) + ":" + oc + ":" + (t.op < NBIN ? BINN[t.op] : UN[t.op - NBIN].name) + "(...)";
-        };
-        cl.body = [&](long long i, Ctx &c) {
-            RCP<const Basic> e;
-            try {
-                e = tr_apply(T[i / NTF]);
-            } catch (SymEngineException &) {
-                c.outcome("constructor-refused");
-                return;
+    if (thorough) {
+        // depth 3, not stored, two sub-layers (each completed before the next starts):
+        //   (a) every binary operation of two depth-1 states            op(S1, S1)
+        //   (b) every unary function of a depth-2 state that is itself a unary function of a depth-1 state   f(g(S1))
+        // (binary operations of a depth-2 state with a leaf and f(a op b) with a depth-2 binary state are outside the bound)
+        for (int sub = 0; sub < 2 && !past_deadline(); sub++) {
+            std::vector<Tr> T;
+            int n = (int)SS.size();
+            for (int a = 0; a < n; a++) {
+                if (sub == 0) {
+                    if (SS.S[a].depth != 1)
+                        continue;
+                    for (int b = 0; b < n; b++) {
+                        if (SS.S[b].depth != 1)
+                            continue;
+                        for (int op = 0; op < NBIN; op++)
+                            if (!((op == B_ADD || op == B_MUL) && b < a))
+                                T.push_back({op, a, b});
+                    }
+                } else if (SS.S[a].depth == 2 && TOP[a] >= NBIN)
+                    for (int u = 0; u < (int)UN.size(); u++)
+                        T.push_back({NBIN + u, a, a});
             }
-            check_case((int)(i % NTF), e, tr_recipe(T[i / NTF]), c);
-        };
-        run_cases(cl);
-        Rn.counters["transitions_into_depth_3"] = T.size();
-        if (Rn.exhaustive)
-            bound += "; plus depth 3 restricted to f(S2) and op(S1,S1) (" + std::to_string(T.size()) + " recipes) x " + std::to_string(NTF) + " transformations";
+            CaseSet cl;
+            cl.name = sub == 0 ? "rewrite:T3:op(S1,S1)" : "rewrite:T3:f(g(S1))";
+            cl.n = (long long)T.size() * NTF;
+            cl.counter_names = cn;
+            cl.desc = [&](long long i) { return std::string(TFN[i % NTF]) + "(" + tr_recipe(T[i / NTF]) + ")"; };
+            cl.crash_sig = [&](long long i, const std::string &oc) {
+                const Tr &t = T[i / NTF];
+                return std::string(TFN[i % NTF]) + ":" + oc + ":" + (t.op < NBIN ? BINN[t.op] : UN[t.op - NBIN].name) + "(...)";
+            };
+            cl.body = [&](long long i, Ctx &c) {
+                RCP<const Basic> e;
+                try {
+                    e = tr_apply(T[i / NTF]);
+                } catch (SymEngineException &) {
+                    c.outcome("constructor-refused");
+                    return;
+                }
+                check_case((int)(i % NTF), e, tr_recipe(T[i / NTF]), c);
+            };
+            run_cases(cl);
+            Rn.counters[std::string("recipes_depth_3_") + (sub == 0 ? "op(S1,S1)" : "f(g(S1))")] = T.size();
+            if (Rn.exhaustive)
+                bound += std::string("; plus every depth-3 recipe ") + (sub == 0 ? "op(S1,S1)" : "f(g(S1))") + " (" + std::to_string(T.size())
+                         + ") x " + std::to_string(NTF) + " transformations";
+        }
     }
     Rn.states = SS.size();
     Rn.transitions = Rn.evaluations;
@@ -530,7 +662,8 @@ int main(int argc, char **argv)
               "rewrite_as_cos, expand_as_exp, trig_to_sqrt, conjugate}: the returned tree(s) are evaluated by RefEval (113-bit complex, "
               "two-sided branch-cut rule) and compared with RefEval of the input: n/d and re+I*im (parts real) at 2 positive real points, the "
               "others at 4 complex grid points; tolerance 1e-25 * nodes * scale; a difference below relative 1e-9 that misses the strict budget "
-              "is counted as ill-conditioned and not judged; as_numer_denom results are also scanned for negative top-level exponents. "
+              "or that occurs where some node sits within 1e-15 of a pole/branch point (e.g. cot(abs(pi)), atan(atan(tan(I)))) is counted as "
+              "ill-conditioned and not judged; as_numer_denom results are also scanned for negative top-level exponents. "
               "Exceptions are refusals (counted). distinct_nontrivial = cases whose result differs from the input.";
     Rn.assumptions = {"libquadmath complex elementary functions", "principal branch with arg(negative real)=+pi; acot z = atan(1/z) etc. as in eval_double",
                       "points where either side is non-finite, near a cut or uses an unsupported node are skipped and counted",
